@@ -44,6 +44,11 @@ Fixpoint remove_hold (h : list (tid * lock * bool)) (t : tid) (l : lock) (ex : b
       if Nat.eqb t t' && Nat.eqb l l' && Bool.eqb ex ex' then r else (t', l', ex') :: remove_hold r t l ex
   end.
 
+Definition count_hold (h : list (tid * lock * bool)) (t : tid) (l : lock) (ex : bool) : nat :=
+  length (filter (fun x => match x with (t', l', ex') => Nat.eqb t t' && Nat.eqb l l' && Bool.eqb ex ex' end) h).
+
+Definition nilb {A} (l : list A) : bool := match l with [] => true | _ => false end.
+
 Definition cur_op (b : bscen) (s : bsim) (t : tid) : option apiop :=
   nth_error (nth t (bs_progs b) []) (bcalls s t).
 
@@ -104,8 +109,26 @@ Definition bstep (b : bscen) (s : bsim) (e : bev) : bsim :=
       mkbsim (bh s) (blast s) (bcalls s) (bfresh s) (ok02 s) (ok03 s) o4 (ok05 s) (ok09 s)
   | BE _ => s
   | BRet t r kf =>
+      let mine := filter (fun x => match x with (t', _, _) => Nat.eqb t t' end) (bh s) in
+      (* C03 / C05: a call that hands the key back (guard dropped or unlocked, scoped call over, failed try,
+         unwinding) leaves the thread holding nothing *)
+      let o3 := ok03 s && match cur_op b s t with
+                          | Some AGuardDrop | Some AGuardUnlock | Some APanic => nilb mine
+                          | Some (AAcquire _ _ (FScoped _ _)) | Some (AAcquire _ _ (FScopedTry _ _)) => nilb mine
+                          | Some (AAcquire _ _ FTry) => match r with RWouldBlock => nilb mine | _ => true end
+                          | _ => true
+                          end in
+      (* C04: a guard is returned only with every leaf held exactly once, in the requested mode, and nothing else *)
+      let o4 := ok04 s && match cur_op b s t, r with
+                          | Some (AAcquire c m FGuard), (ROk | RPoisoned)
+                          | Some (AAcquire c m FTry), (ROk | RPoisoned) =>
+                              let lv := leaves (shape_of sc c) in
+                              let ex := match m with Ex => true | Sh => false end in
+                              forallb (fun l => Nat.eqb (count_hold mine t l ex) 1) lv && Nat.eqb (length mine) (length lv)
+                          | _, _ => true
+                          end in
       mkbsim (bh s) (blast s) (upd (bcalls s) t (S (bcalls s t))) (upd (bfresh s) t true)
-             (ok02 s) (ok03 s) (ok04 s) (ok05 s) (ok09 s)
+             (ok02 s) o3 o4 (ok05 s) (ok09 s)
   | BWait t l held =>
       (* a retrying acquisition waits only with nothing of it in hand (inside an owned member: only that
          member's own lower locks) *)
@@ -132,8 +155,10 @@ Definition mon_C02 (b : bscen) (o : bobs) : bool := let s := breplay b o in ok02
 Definition mon_C09 (b : bscen) (o : bobs) : bool := ok09 (breplay b o) && is_done o.
 (* the interleaved parts of C03 / C05 *)
 Definition mon_C03b (b : bscen) (o : bobs) : bool := ok03 (breplay b o).
+Definition mon_C04b (b : bscen) (o : bobs) : bool := ok04 (breplay b o).
 Definition mon_C05b (b : bscen) (o : bobs) : bool :=
-  ok05 (breplay b o) && (if is_done o then list_eqb rawst_sim (bo_holds o) (pre_holds (bs_sc b)) else true).
+  let s := breplay b o in
+  ok05 s && ok03 s && (if is_done o then list_eqb rawst_sim (bo_holds o) (pre_holds (bs_sc b)) else true).
 
 Definition bev_is_raw (e : bev) : bool := match e with BE (ERaw _ _ _ _) => true | BRet _ _ _ => true | _ => false end.
 Definition bev_is_data (e : bev) : bool := match e with BE (EData _ _ _ _ _) | BE (EMark _ _) => true | BE (ERaw _ _ _ _) => true | _ => false end.
@@ -152,3 +177,7 @@ Definition check_C01 (b : bscen) (sched : list tid) (impl : bobs) : verdict :=
   mkv (v_strict v) (v_proj v && model_stable b sched) (v_mon v) (v_monk v).
 Definition check_C02 := bcheck bev_is_data true false mon_C02.
 Definition check_C09 := bcheck bev_is_wait false false mon_C09.
+(* the interleaved parts of the C03 / C04 / C05 checks *)
+Definition check_C03b := bcheck bev_is_raw true false mon_C03b.
+Definition check_C04b := bcheck bev_is_raw true false mon_C04b.
+Definition check_C05b := bcheck bev_is_raw true false mon_C05b.
